@@ -725,11 +725,11 @@ Section Writers.
       cbv zeta in IH. rewrite IH. reflexivity.
   Qed.
 
-  Lemma writer_ok : forall m pre post bs, forallb (forallb no_fail) bs = true ->
-    writer HdrFirstOrFp m key value pre post bs =
+  Lemma writer_ok : forall m buf pre post bs, forallb (forallb no_fail) bs = true ->
+    writer HdrFirstOrFp m buf key value pre post bs =
     pre ++ objs (group (List.concat (map (match m with EofContinue => filter is_live | EofBreak => until_eof end) bs))) ++ post.
   Proof.
-    intros m pre post bs Hb. unfold writer. rewrite (run_batches_rows m bs lstate0 Hb). cbv zeta.
+    intros m buf pre post bs Hb. unfold writer. rewrite (run_batches_rows m bs lstate0 Hb). cbv zeta.
     rewrite <- (out_closed _ lstate0 eq_refl). unfold out. now rewrite <- app_assoc.
   Qed.
 End Writers.
@@ -761,7 +761,7 @@ Theorem enc_streams_canonical : forall bs, forallb (forallb no_fail) bs = true -
   enc_streams HdrFirstOrFp bs = tokens_of (doc_streams bs).
 Proof.
   intros bs Hb. unfold enc_streams, doc_streams.
-  rewrite (writer_ok "stream" log_value log_value_doc log_value_tokens EofContinue _ _ bs Hb).
+  rewrite (writer_ok "stream" log_value log_value_doc log_value_tokens EofContinue _ _ _ bs Hb).
   rewrite tokens_of_response, concat_filter. reflexivity.
 Qed.
 
@@ -769,7 +769,7 @@ Theorem enc_matrix_canonical : forall bs, forallb (forallb no_fail) bs = true ->
   enc_matrix bs = tokens_of (doc_matrix bs).
 Proof.
   intros bs Hb. unfold enc_matrix, doc_matrix.
-  rewrite (writer_ok "metric" matrix_value matrix_value_doc matrix_value_tokens EofBreak _ _ bs Hb).
+  rewrite (writer_ok "metric" matrix_value matrix_value_doc matrix_value_tokens EofBreak _ _ _ bs Hb).
   rewrite tokens_of_response. reflexivity.
 Qed.
 
@@ -777,7 +777,7 @@ Theorem enc_tail_canonical : forall bs, forallb (forallb no_fail) bs = true ->
   enc_tail HdrFirstOrFp bs = tokens_of (doc_tail bs).
 Proof.
   intros bs Hb. unfold enc_tail, doc_tail.
-  rewrite (writer_ok "stream" log_value log_value_doc log_value_tokens EofContinue _ _ bs Hb).
+  rewrite (writer_ok "stream" log_value log_value_doc log_value_tokens EofContinue _ _ _ bs Hb).
   rewrite tokens_of_obj, concat_filter. cbn [map]. rewrite join_one. unfold member_toks. cbn [fst snd].
   rewrite tokens_of_arr. cbn [wObjectStart wObjectField wArrayStart wArrayEnd wObjectEnd app].
   rewrite <- !app_assoc. reflexivity.
@@ -1240,3 +1240,81 @@ Proof.
     apply in_map_iff in Hi. destruct Hi as [x [Hx Hin]].
     unfold find_fp in E. apply (find_none _ _ E x) in Hin. rewrite Hx, N.eqb_refl in Hin. discriminate.
 Qed.
+
+(* ------------------------------------------------------------------------------------------ *)
+(* Prometheus responses *)
+
+Lemma sep_loop_true : forall A (item : A -> list token) xs,
+  sep_loop item xs true = flat_map (fun x => TComma :: item x) xs.
+Proof. intros A item. induction xs as [|x r IH]; [reflexivity|]. cbn [sep_loop flat_map app]. now rewrite IH. Qed.
+
+Lemma sep_loop_join : forall A (item : A -> list token) (doc : A -> json),
+  (forall x, tokens_of (doc x) = item x) ->
+  forall xs, sep_loop item xs false = join (map tokens_of (map doc xs)).
+Proof.
+  intros A item doc H [|x r]; [reflexivity|]. cbn [sep_loop map app]. rewrite join_flat, sep_loop_true, H.
+  f_equal. induction r as [|y r IH]; [reflexivity|]. cbn [flat_map map app]. now rewrite IH, H.
+Qed.
+
+Lemma tokens_of_point_doc : forall p, tokens_of (point_doc p) = prom_point p.
+Proof. reflexivity. Qed.
+
+Lemma tokens_of_prom_series_doc : forall s, tokens_of (prom_series_doc s) = prom_series s.
+Proof.
+  intros s. unfold prom_series_doc, prom_series. rewrite tokens_of_obj. cbn [map]. rewrite join_cons2, join_one.
+  unfold member_toks. cbn [fst snd]. rewrite tokens_of_labels_doc, tokens_of_arr.
+  rewrite <- (sep_loop_join psample prom_point point_doc tokens_of_point_doc).
+  cbn [wObjectStart wObjectField wMore wArrayStart wArrayEnd wObjectEnd app]. rewrite <- !app_assoc.
+  cbn [app]. rewrite <- !app_assoc. reflexivity.
+Qed.
+
+Lemma tokens_of_prom_sample_doc : forall s, tokens_of (prom_sample_doc s) = prom_sample s.
+Proof.
+  intros s. unfold prom_sample_doc, prom_sample. rewrite tokens_of_obj. cbn [map]. rewrite join_cons2, join_one.
+  unfold member_toks. cbn [fst snd]. rewrite tokens_of_labels_doc.
+  destruct (pr_pts s) as [|p r]; cbn [tokens_of map join point_doc prom_point wObjectStart wObjectField wMore wArrayStart
+                                     wArrayEnd wObjectEnd wRaw wString app]; rewrite <- !app_assoc; reflexivity.
+Qed.
+
+Lemma nums_ok_prom_series : forall s, nums_ok (prom_series_doc s) = forallb (fun p => num_ok (ps_t p)) (pr_pts s).
+Proof.
+  intros s. unfold prom_series_doc. cbn [nums_ok forallb snd]. rewrite nums_ok_labels_doc, forallb_map'. cbn [andb].
+  rewrite andb_true_r. apply forallb_ext'. intros p. cbn [point_doc nums_ok forallb]. now rewrite andb_true_r.
+Qed.
+Lemma nums_ok_prom_sample : forall s, forallb (fun p => num_ok (ps_t p)) (pr_pts s) = true -> nums_ok (prom_sample_doc s) = true.
+Proof.
+  intros s H. unfold prom_sample_doc. cbn [nums_ok forallb snd]. rewrite nums_ok_labels_doc. cbn [andb].
+  rewrite andb_true_r. destruct (pr_pts s) as [|p r]; [reflexivity|]. cbn [forallb] in H. apply andb_prop in H.
+  destruct H as [H _]. cbn [point_doc nums_ok forallb]. now rewrite H.
+Qed.
+
+Theorem prom_matrix_bytes : forall ss, series_nums_ok ss = true ->
+  parse_bytes (render (enc_prom_matrix ss)) = Some (doc_prom_matrix ss).
+Proof.
+  intros ss Hn. unfold enc_prom_matrix, doc_prom_matrix.
+  rewrite (sep_loop_join pseries prom_series prom_series_doc tokens_of_prom_series_doc), <- tokens_of_response.
+  apply parse_bytes_render. rewrite nums_ok_response, forallb_map'. unfold series_nums_ok in Hn.
+  erewrite forallb_ext'; [exact Hn|]. intros s. apply nums_ok_prom_series.
+Qed.
+
+Theorem prom_vector_bytes : forall ss, series_nums_ok ss = true ->
+  parse_bytes (render (enc_prom_vector ss)) = Some (doc_prom_vector ss).
+Proof.
+  intros ss Hn. unfold enc_prom_vector, doc_prom_vector.
+  rewrite (sep_loop_join pseries prom_sample prom_sample_doc tokens_of_prom_sample_doc), <- tokens_of_response.
+  apply parse_bytes_render. rewrite nums_ok_response, forallb_map'. unfold series_nums_ok in Hn.
+  rewrite forallb_forall in *. intros s Hs. apply nums_ok_prom_sample, Hn, Hs.
+Qed.
+
+Theorem prom_scalar_bytes : forall p, num_ok (ps_t p) = true ->
+  parse_bytes (render (enc_prom_scalar p)) = Some (doc_prom_scalar p).
+Proof.
+  intros p Hn. apply parse_bytes_of_prep.
+  - unfold enc_prom_scalar, open_response, close_response.
+    cbn [wObjectStart wObjectField wString wMore wArrayStart wArrayEnd wObjectEnd app lexable closes all_ws is_ws].
+    now rewrite Hn.
+  - unfold enc_prom_scalar, doc_prom_scalar. rewrite tokens_of_response. rewrite !prep_app. reflexivity.
+Qed.
+
+Theorem prom_error_bytes : forall msg, parse_bytes (render (enc_prom_error msg)) = Some (doc_prom_error msg).
+Proof. intros msg. apply (parse_bytes_render (doc_prom_error msg)). reflexivity. Qed.
